@@ -164,7 +164,7 @@ def register(reg, stubs, world):
         return [('propagates-only-the-definitions-exception',
                  z3.And(found, EVX(child, t, c, e, cur) == eng.cid(out.exc.cname)))]
     reg.add(Contract('_checks:RuleCheck.__call__', pre=rule_pre, post=rule_post, defs=eval_defs, axioms=ev_axioms,
-                     raises=('RuntimeError', '$OtherException'), props=('C06', 'C03'),
+                     raises=('ValueError', 'RuntimeError', '$OtherException'), props=('C06', 'C03'),
                      assumptions=('a KeyError raised inside the referenced definition is indistinguishable from an '
                                   'undefined reference and denies (stated in the contract, outside C06\'s quantifier)',)))
 
